@@ -494,6 +494,90 @@ _verdict(got[1:] != [1.0, 2.0, 3.0], periods=got)
         chk.fail('C13/(7)corrector-closure/period=2*half_period', 'aux period %r' % (out[3],), None)
 
 
+def step_control_with_policy(chk):
+    """on_reject with a user-supplied shrink policy (its output an arbitrary symbolic vector, or an exception): the step handed back
+    is clamped to [step_min, step_max] componentwise with the policy's sign -- the bound the backend's predictions rely on."""
+    import hiten.algorithms.continuation.stepping.base as SB
+    cls = type('StepUnderTest', (SB._ContinuationStepBase,), {})
+    cls.__abstractmethods__ = frozenset()
+    smin, smax = W.vars('step_min step_max')
+    step = np.array([W.var('st0'), W.var('st1')])
+    pol = np.array([W.var('pol0'), W.var('pol1')])
+    for mode in ('returns', 'raises'):
+        ex = Explorer(max_paths=400)
+        ex.abs_by_branch = False
+        with explore.activate(ex):
+            ex.assume(smin > 0)
+            ex.assume(smin <= smax)
+            for v in list(step) + list(pol):
+                ex.assume(v != 0)
+
+        def policy(st):
+            if mode == 'raises':
+                raise RuntimeError('policy failed')
+            return pol.copy()
+        obj = object.__new__(cls)
+        obj._shrink_policy, obj._step_min, obj._step_max = policy, smin, smax
+
+        def go():
+            return obj.on_reject(last_solution=None, step=step.copy(), proposal=None)
+        bad = None
+        paths = ex.run(go)
+        for pth in paths:
+            if pth.exc is not None:
+                bad = ('raised %r' % (pth.exc,), None)
+                break
+            out = pth.value
+            src = pol if mode == 'returns' else step * Fraction(1, 2)
+            with explore.activate(ex):
+                goals = []
+                for i in range(2):
+                    o, v = Sym.lift(out[i]), Sym.lift(src[i])
+                    goals += [abs(o) >= smin, abs(o) <= smax, o * v > 0,
+                              Implies(And(abs(v) >= smin, abs(v) <= smax), o - v == 0)]
+            v_, m_, kk = ex.prove_all(pth, goals)
+            if v_ != 'unsat':
+                bad = ('component %d of the step returned after a rejection violates %s' % (kk // 4, ('|step| >= step_min', '|step| <= step_max', 'the sign of the proposed step', 'identity inside the clamps')[kk % 4]), m_)
+                break
+        chk.absorb(ex)
+        oid = 'C13/(4)step-control/custom shrink policy %s' % mode
+        if bad is None:
+            chk.ok(oid, '%d paths: the step after a rejection is the policy output%s clamped componentwise to [step_min, step_max] with its sign' % (len(paths), '' if mode == 'returns' else ' (halving fallback when the policy raises)'))
+        else:
+            env = model_to_env(bad[1]) if bad[1] is not None else {}
+            chk.fail(oid, '%s, e.g. at %s' % (bad[0], fmt_env(env)), _replay_policy(), env)
+
+
+def _replay_policy():
+    """Compiled build: the real backend with custom shrink policies (x0.25 and x4) and a corrector that keeps rejecting: every
+    prediction offset and the final step stay inside [step_min, step_max]."""
+    return _REPLAY_COMMON + '''
+bad = {}
+for kind in ("natural", "secant"):
+    for fac in (0.25, 4.0):
+        for sgn in (1.0, -1.0):
+            calls = []
+            def corrector(pred):
+                k = len(calls); calls.append(np.array(pred, dtype=float))
+                return np.array([pred[0], pred[0] ** 2]), 0.0, k < 2, {"period": float(k)}
+            def predictor(last, st):
+                last = np.asarray(last, dtype=float).copy(); last[0] += float(np.asarray(st, dtype=float)[0]); return last
+            smin, smax = 1e-3, 0.05
+            req = ContinuationBackendRequest(seed_repr=np.array([0.0, 0.0]), stepper_fn=(predictor if kind == "natural" else (lambda v: np.asarray(v, dtype=float))), predictor_fn=predictor,
+                parameter_getter=lambda r: np.asarray(r, dtype=float)[:1], corrector=corrector, step=np.array([0.02 * sgn]), target=np.array([[-5.0], [5.0]]), max_members=6,
+                max_retries_per_step=8, shrink_policy=(lambda st, f=fac: np.asarray(st, dtype=float) * f), step_min=smin, step_max=smax)
+            be = _PredictorCorrectorContinuationBackend(stepper_factory=(make_natural_stepper() if kind == "natural" else make_secant_stepper()), support_factory=(None if kind == "natural" else _VectorSpaceSecantSupport))
+            resp = be.run(request=req); fam = [np.asarray(m, dtype=float) for m in resp.family_repr]
+            last = fam[-1]
+            lens = [abs(c[0] - last[0]) if kind == "natural" else float(np.linalg.norm(c - last)) for c in calls[len(fam) - 1:]]
+            out = [l for l in lens if not (smin * (1 - 1e-9) <= l <= smax * (1 + 1e-9))]
+            fs = resp.info.get("final_step")
+            if out or (fs is not None and not (smin * (1 - 1e-9) <= float(np.max(np.abs(fs))) <= smax * (1 + 1e-9))):
+                bad["%s_policy_x%g_sign%+d" % (kind, fac, int(sgn))] = "prediction offsets %s, final step %s, clamps [%g, %g]" % (np.round(out[:3], 8).tolist(), fs, smin, smax)
+_verdict(bool(bad), **bad)
+'''
+
+
 def main():
     chk = Check(PID)
     chk.default_replay = _replay_general
@@ -511,7 +595,7 @@ def main():
               representation_dim=2, parameter_dim='1 (2 in the thorough tier)', corrector_outcomes='every accept/reject%s sequence (free boolean per call)' % ('/raise' if thorough else ''))
     chk.assume('seed parameter inside the target interval', 'step components non-zero with step_min <= |step_i| <= step_max, 0 < step_min <= step_max',
                'corrector, its residual and aux are uninterpreted (fresh symbols per call); the predictor is the interface\'s own _predictor_from_problem')
-    chk.out_of_scope('that members are periodic orbits (C05): here each member is exactly what the corrector returned', 'shrink_policy callbacks other than the default halving')
+    chk.out_of_scope('that members are periodic orbits (C05): here each member is exactly what the corrector returned', 'shrink_policy callbacks inside the backend loop (their clamping is decided separately on on_reject with an arbitrary policy output)')
     run_backend('natural', 3, 1, False, 400, chk)
     run_backend('secant', 3, 1, False, 400, chk)
     if thorough:
@@ -520,6 +604,7 @@ def main():
         run_backend('secant', 4, 1, False, 2400, chk)
         run_backend('natural', 3, 1, False, 2400, chk, pdim=2)
     interface_periods(chk)
+    step_control_with_policy(chk)
     return chk.finish()
 
 
